@@ -40,8 +40,8 @@ LEVEL_TEXT = (
 
 def budget(tier):
     if tier == "quick":
-        return dict(max_examples=8, shards=8, wall_s=200, shrink_s=0)
-    return dict(max_examples=64, shards=16, wall_s=3300, shrink_s=0)
+        return dict(max_examples=6, shards=3, wall_s=200, shrink_s=0)
+    return dict(max_examples=64, shards=4, wall_s=3300, shrink_s=0)
 
 
 def strategy(tier):
@@ -180,29 +180,37 @@ def check_case(case):
     f0 = toy_input(case["pdf"], card["xgrid"])
     R = []
     fmax = 0.0
+    workers = case.get("workers", 4)
     try:
         with tight_quad():
-            for lam in case["lambdas"]:
-                fs = []
-                fin = f0
-                if case.get("prepared_input"):
-                    # heavy-free input below the threshold, brought above it with unit matching ratio
+            lams = case["lambdas"]
+            fins = [f0] * len(lams)
+            if case.get("prepared_input"):
+                # heavy-free input below the threshold, brought above it with unit matching ratio
+                preps = []
+                for lam in lams:
                     c = copy.deepcopy(card)
                     c["alphas"] = card["alphas"] * lam
                     c.update(init=card["mugrid"][0], mugrid=[card["init"]], inv=None, ratios=[1.0, 1.0, 1.0])
-                    fin = evolved(c, f0)
+                    preps.append(c)
+                fins = [np.einsum("ajbk,bk->aj", list(o.values())[0][0], f0) for o in ru.solve_many(preps, workers)]
+            cards_ = []
+            for lam in lams:
                 for k in case["k"]:
                     c = copy.deepcopy(card)
                     c["alphas"] = card["alphas"] * lam
                     c["ratios"] = [1.0, 1.0, 1.0]
                     c["ratios"][case["nfl"] - 3] = k
-                    fs.append(evolved(c, fin))
+                    cards_.append(c)
+            outs = ru.solve_many(cards_, workers)
+            for i, lam in enumerate(lams):
+                fs = [np.einsum("ajbk,bk->aj", list(outs[2 * i + j].values())[0][0], fins[i]) for j in range(2)]
                 R.append(float(np.max(np.abs(fs[0] - fs[1]))))
                 fmax = max(fmax, float(np.max(np.abs(fs[0]))))
-    except (NotImplementedError, ValueError) as e:
+    except (NotImplementedError, ValueError, ru.SolveRefused) as e:
         return CaseResult(discarded=f"refused:{type(e).__name__}")
-    except Exception as e:  # noqa: BLE001 - crashes are C04's verdict
-        return CaseResult(discarded=exc_bucket("crash(decided by C04)", e))
+    except ru.SolveCrashed as e:  # crashes are C04's verdict
+        return CaseResult(discarded="crash(decided by C04):" + str(e)[:80])
     noise = 1e-9 * fmax
     usable = [r for r in R if r > 100 * noise]
     res.nontrivial = bool(R[0] > 100 * noise and len(usable) >= 2)
